@@ -45,39 +45,40 @@ theorem HBlock.mem {c k : Nat} {p0 : PImg} (u : MemUpd) : HBlock c p0 k [memA u]
 
 theorem HBlock.nil {c k : Nat} {p0 : PImg} : HBlock c p0 k [] := ⟨rfl, by simp [ioSteps]⟩
 
-def flushSteps (pm : Meta) : List Step := [.pg (.hdr pm) 0, .pg .bitmap 1, .ps]
+def flushSteps (pm : Meta) (bm : Nat) : List Step := [.pg (.hdr pm) 0, .pg (.bitmap bm) 1, .ps]
 
-theorem ioSteps_flushA (pm : Meta) : ioSteps (flushA pm) = flushSteps pm := rfl
+theorem ioSteps_flushA (pm : Meta) (bm : Nat) : ioSteps (flushA pm bm) = flushSteps pm bm := rfl
 
-theorem hblock_flush {c k : Nat} {p0 : PImg} {pm : Meta} (h : OKhdr c p0 k pm) : HBlock c p0 k (flushA pm) where
+theorem hblock_flush {c k : Nat} {p0 : PImg} {pm : Meta} {bm : Nat} (h : OKhdr c p0 k pm) (hb : p0.bm ≤ bm) :
+    HBlock c p0 k (flushA pm bm) where
   nofail := rfl
   steps := by
     intro s hs
     simp [ioSteps_flushA, flushSteps] at hs
-    rcases hs with rfl | rfl | rfl <;> simp [HStep, h]
+    rcases hs with rfl | rfl | rfl <;> simp [HStep, h, hb]
 
 /-- the actions end with a flush of `pm` -/
-def EndsFlushed (acts : List Action) (pm : Meta) : Prop := ∃ pre, ioSteps acts = pre ++ flushSteps pm
+def EndsFlushed (acts : List Action) (pm : Meta) : Prop := ∃ pre bm, ioSteps acts = pre ++ flushSteps pm bm
 
-theorem endsFlushed_flush (pm : Meta) : EndsFlushed (flushA pm) pm := ⟨[], rfl⟩
+theorem endsFlushed_flush (pm : Meta) (bm : Nat) : EndsFlushed (flushA pm bm) pm := ⟨[], bm, rfl⟩
 
 theorem endsFlushed_append {a b : List Action} {pm : Meta} (ha : failOf a = none) (hb : EndsFlushed b pm) :
     EndsFlushed (a ++ b) pm := by
-  obtain ⟨pre, h⟩ := hb
-  exact ⟨ioSteps a ++ pre, by rw [ioSteps_append_noFail _ _ ha, h, List.append_assoc]⟩
+  obtain ⟨pre, bm, h⟩ := hb
+  exact ⟨ioSteps a ++ pre, bm, by rw [ioSteps_append_noFail _ _ ha, h, List.append_assoc]⟩
 
 theorem endsFlushed_append_mem {a : List Action} {pm : Meta} (u : MemUpd) (ha : EndsFlushed a pm) (hf : failOf a = none) :
     EndsFlushed (a ++ [memA u]) pm := by
-  obtain ⟨pre, h⟩ := ha
-  exact ⟨pre, by rw [ioSteps_append_noFail _ _ hf, h]; simp [ioSteps]⟩
+  obtain ⟨pre, bm, h⟩ := ha
+  exact ⟨pre, bm, by rw [ioSteps_append_noFail _ _ hf, h]; simp [ioSteps]⟩
 
 theorem applyEffs_append (a b : List PEff) (p : PImg) : applyEffs (a ++ b) p = applyEffs b (applyEffs a p) := by
   simp [applyEffs, List.foldl_append]
 
 /-- after a flush nothing is unsynced and the durable meta page is the one just written -/
-theorem steps_flushed (fs : FS) (S : List Step) (pm : Meta) (h : ∃ pre, S = pre ++ flushSteps pm) :
+theorem steps_flushed (fs : FS) (S : List Step) (pm : Meta) (h : ∃ pre bm, S = pre ++ flushSteps pm bm) :
     (fs.steps S).pj = [] ∧ (fs.steps S).pd.hdr = pm := by
-  obtain ⟨pre, rfl⟩ := h
+  obtain ⟨pre, bm, rfl⟩ := h
   rw [steps_append]
   generalize fs.steps pre = g
   simp [flushSteps, FS.steps, FS.step, FS.pv, applyEffs_append, applyEffs, applyEff]
@@ -87,35 +88,56 @@ theorem steps_flushed (fs : FS) (S : List Step) (pm : Meta) (h : ∃ pre, S = pr
 theorem hblock_setLen {c k : Nat} {p0 : PImg} (n pid : Nat) : HBlock c p0 k [ioA (.pg (.setLen n) pid)] :=
   ⟨rfl, by simp [ioSteps, HStep]⟩
 
-theorem ensureA_spec {c k : Nat} {p0 : PImg} (ps : PS) (pid : Nat) (h : OKhdr c p0 k ps.pm) :
+theorem ensureA_bm (ps : PS) (pid : Nat) : ps.bm ≤ (ensureA ps pid).2.bm := by
+  unfold ensureA
+  show ps.bm ≤ (if pid < ps.bm then ps.bm else pid + 1)
+  split <;> omega
+
+theorem ensureA_spec {c k : Nat} {p0 : PImg} (ps : PS) (pid : Nat) (h : OKhdr c p0 k ps.pm) (hb : p0.bm ≤ ps.bm) :
     HBlock c p0 k (ensureA ps pid).1 ∧ SameKey ps.pm (ensureA ps pid).2.pm ∧
       EndsFlushed (ensureA ps pid).1 (ensureA ps pid).2.pm := by
+  have hb' : p0.bm ≤ (if pid < ps.bm then ps.bm else pid + 1) := Nat.le_trans hb (by split <;> omega)
   unfold ensureA
   by_cases hg : ps.pm.nextPage ≤ pid
   · have hs : SameKey ps.pm { ps.pm with nextPage := pid + 1 } := ⟨rfl, rfl, rfl, rfl, by simp; omega⟩
     by_cases he : ps.len < pid + 1
     · simp only [hg, he, if_true]
-      exact ⟨(HBlock.mem _).append ((hblock_setLen _ _).append (hblock_flush (h.sameKey hs))), hs,
-        ⟨[.pg (.setLen (pid + 1)) (pid + 1)], rfl⟩⟩
+      exact ⟨(HBlock.mem _).append ((hblock_setLen _ _).append (hblock_flush (h.sameKey hs) hb')), hs,
+        ⟨[.pg (.setLen (pid + 1)) (pid + 1)], _, rfl⟩⟩
     · simp only [hg, he, if_true, if_false]
-      exact ⟨(HBlock.mem _).append (HBlock.nil.append (hblock_flush (h.sameKey hs))), hs, ⟨[], rfl⟩⟩
+      exact ⟨(HBlock.mem _).append (HBlock.nil.append (hblock_flush (h.sameKey hs) hb')), hs, ⟨[], _, rfl⟩⟩
   · by_cases he : ps.len < pid + 1
     · simp only [hg, he, if_true, if_false]
-      exact ⟨HBlock.nil.append ((hblock_setLen _ _).append (hblock_flush h)), SameKey.refl _,
-        ⟨[.pg (.setLen (pid + 1)) (pid + 1)], rfl⟩⟩
+      exact ⟨HBlock.nil.append ((hblock_setLen _ _).append (hblock_flush h hb')), SameKey.refl _,
+        ⟨[.pg (.setLen (pid + 1)) (pid + 1)], _, rfl⟩⟩
     · simp only [hg, he, if_false]
-      exact ⟨HBlock.nil.append (HBlock.nil.append (hblock_flush h)), SameKey.refl _, ⟨[], rfl⟩⟩
+      exact ⟨HBlock.nil.append (HBlock.nil.append (hblock_flush h hb')), SameKey.refl _, ⟨[], _, rfl⟩⟩
 
-theorem allocA_spec {c k : Nat} {p0 : PImg} (ps : PS) (h : OKhdr c p0 k ps.pm) :
-    HBlock c p0 k (allocA ps).1 ∧ SameKey ps.pm (allocA ps).2.1.pm ∧
-      EndsFlushed (allocA ps).1 (allocA ps).2.1.pm ∧ (allocA ps).2.2 = ps.pm.nextPage := by
+theorem allocA_pid (ps : PS) : (allocA ps).2.2 = min ps.bm ps.pm.nextPage := by
   unfold allocA
-  have hs : SameKey ps.pm { ps.pm with nextPage := ps.pm.nextPage + 1 } := ⟨rfl, rfl, rfl, rfl, by simp⟩
-  obtain ⟨hb, hk, he⟩ := ensureA_spec (c := c) (k := k) (p0 := p0)
-    { ps with pm := { ps.pm with nextPage := ps.pm.nextPage + 1 } } ps.pm.nextPage (h.sameKey hs)
-  refine ⟨?_, hs.trans hk, ?_, rfl⟩
-  · exact (HBlock.mem _).append hb
-  · have := endsFlushed_append (a := [memA (.setPm { ps.pm with nextPage := ps.pm.nextPage + 1 })]) rfl he
+  show (if ps.bm < ps.pm.nextPage then ps.bm else ps.pm.nextPage) = _
+  split <;> omega
+
+theorem allocA_bm (ps : PS) : ps.bm ≤ (allocA ps).2.1.bm := by
+  unfold allocA
+  exact ensureA_bm _ _
+
+theorem allocA_spec {c k : Nat} {p0 : PImg} (ps : PS) (h : OKhdr c p0 k ps.pm) (hb : p0.bm ≤ ps.bm) :
+    HBlock c p0 k (allocA ps).1 ∧ SameKey ps.pm (allocA ps).2.1.pm ∧
+      EndsFlushed (allocA ps).1 (allocA ps).2.1.pm := by
+  unfold allocA
+  by_cases hh : ps.bm < ps.pm.nextPage
+  · simp only [hh, if_true]
+    obtain ⟨hbk, hk, he⟩ := ensureA_spec (c := c) (k := k) (p0 := p0) { ps with pm := ps.pm } ps.bm h hb
+    refine ⟨(HBlock.mem _).append hbk, hk, ?_⟩
+    have := endsFlushed_append (a := [memA (.setPm ps.pm)]) rfl he
+    simpa using this
+  · simp only [hh, if_false]
+    have hs : SameKey ps.pm { ps.pm with nextPage := ps.pm.nextPage + 1 } := ⟨rfl, rfl, rfl, rfl, by simp⟩
+    obtain ⟨hbk, hk, he⟩ := ensureA_spec (c := c) (k := k) (p0 := p0)
+      { ps with pm := { ps.pm with nextPage := ps.pm.nextPage + 1 } } ps.pm.nextPage (h.sameKey hs) hb
+    refine ⟨(HBlock.mem _).append hbk, hs.trans hk, ?_⟩
+    have := endsFlushed_append (a := [memA (.setPm { ps.pm with nextPage := ps.pm.nextPage + 1 })]) rfl he
     simpa using this
 
 /-- nothing is unsynced and the durable meta page equals the in-memory one -/
@@ -134,7 +156,8 @@ theorem safeAlong_mono {P Q : FS → Prop} {fs : FS} {S : List Step} (h : SafeAl
     (hpq : ∀ fs, P fs → Q fs) : SafeAlong Q fs S := fun n => hpq _ (h n)
 
 theorem startA_spec {c k : Nat} {p0 : PImg} (ps : PS) (id : IdSt) (h : OKhdr c p0 k ps.pm)
-    (hz : id.start = 0 → ps.pm.i2eLen = 0) (hid : id.start = ps.pm.i2eStart) (hnp : 1 ≤ ps.pm.nextPage) :
+    (hz : id.start = 0 → ps.pm.i2eLen = 0) (hid : id.start = ps.pm.i2eStart) (hnp : 1 ≤ ps.pm.nextPage)
+    (hbm : p0.bm ≤ ps.bm) (h1 : 1 ≤ p0.bm) :
     HBlock c p0 k (startA ps id).1 ∧ OKhdr c p0 k (startA ps id).2.1.pm ∧
       (startA ps id).2.1.pm.i2eLen = ps.pm.i2eLen ∧ (startA ps id).2.1.pm.i2eStart = (startA ps id).2.2 ∧
       (startA ps id).2.2 ≠ 0 ∧ 1 ≤ (startA ps id).2.1.pm.nextPage ∧
@@ -142,34 +165,49 @@ theorem startA_spec {c k : Nat} {p0 : PImg} (ps : PS) (id : IdSt) (h : OKhdr c p
   unfold startA
   by_cases hs : id.start = 0
   · simp only [hs, if_true]
-    obtain ⟨hb, hk, he, hp⟩ := allocA_spec (c := c) (k := k) (p0 := p0) ps h
+    obtain ⟨hb, hk, he⟩ := allocA_spec (c := c) (k := k) (p0 := p0) ps h hbm
+    have hbm' : p0.bm ≤ (allocA ps).2.1.bm := Nat.le_trans hbm (allocA_bm ps)
     have hlen0 : (allocA ps).2.1.pm.i2eLen = 0 := by rw [hk.len]; exact hz hs
     have hok : OKhdr c p0 k { (allocA ps).2.1.pm with i2eStart := (allocA ps).2.2 } := by
       have h1 := h.sameKey hk
       exact ⟨h1.init, h1.catRoot, fun _ => hlen0, h1.lo, h1.hi, h1.nextPage⟩
     refine ⟨?_, hok, ?_, ?_, ?_, ?_, ?_⟩
-    · exact ((hb.append (HBlock.mem _)).append (hblock_flush hok)).append (HBlock.mem _)
+    · exact ((hb.append (HBlock.mem _)).append (hblock_flush hok hbm')).append (HBlock.mem _)
     · show (allocA ps).2.1.pm.i2eLen = _
       exact hk.len
     · first | rfl | trivial
-    · rw [hp]; omega
+    · rw [allocA_pid]; omega
     · show 1 ≤ (allocA ps).2.1.pm.nextPage
       exact Nat.le_trans hnp hk.np
     · intro fs _
       apply synced_of_endsFlushed
       apply endsFlushed_append_mem
-      · exact endsFlushed_append ((hb.append (HBlock.mem _)).nofail) (endsFlushed_flush _)
-      · exact ((hb.append (HBlock.mem _)).append (hblock_flush hok)).nofail
+      · exact endsFlushed_append ((hb.append (HBlock.mem _)).nofail) (endsFlushed_flush _ _)
+      · exact ((hb.append (HBlock.mem _)).append (hblock_flush hok hbm')).nofail
   · simp only [hs, if_false]
     refine ⟨HBlock.nil, h, ?_, hid.symm, hs, hnp, ?_⟩
     · first | rfl | trivial
     · intro fs hsy
       simpa [ioSteps, FS.steps] using hsy
 
+theorem startA_bm (ps : PS) (id : IdSt) : ps.bm ≤ (startA ps id).2.1.bm := by
+  unfold startA
+  by_cases hs : id.start = 0
+  · simp only [hs, if_true]; exact allocA_bm ps
+  · simp only [hs, if_false]; exact Nat.le_refl _
+
+theorem nodeA_bm (cfg : Cfg) (ps : PS) (id : IdSt) (x : Nat) : ps.bm ≤ (nodeA cfg ps id x).2.1.bm := by
+  show ps.bm ≤ (ensureA (startA ps id).2.1 (startA ps id).2.2).2.bm
+  exact Nat.le_trans (startA_bm ps id) (ensureA_bm _ _)
+
+theorem nodesA_bm (cfg : Cfg) : ∀ (xs : List Nat) (ps : PS) (id : IdSt), ps.bm ≤ (nodesA cfg ps id xs).2.1.bm
+  | [], _, _ => Nat.le_refl _
+  | x :: xs, ps, id => Nat.le_trans (nodeA_bm cfg ps id x) (nodesA_bm cfg xs _ _)
+
 theorem ng_slot_succ {N : List Nat} {c k : Nat} {p0 p : PImg} (h : NG N c p0 k p) (x : Nat)
     (hx : x = getSlot N k) : NG N c p0 (k + 1) (applyEff (.slot k x) p) := by
   have hf := h.frame
-  refine ⟨⟨hf.segs, hf.trees, hf.cat, hf.idx, hf.init, hf.catRoot, hf.len, hf.nextPage⟩,
+  refine ⟨⟨hf.segs, hf.trees, hf.cat, hf.idx, hf.init, hf.catRoot, hf.len, hf.nextPage, hf.bm⟩,
     h.start, h.lo, Nat.le_succ_of_le h.hi, ?_⟩
   intro i hi
   show getSlot (setSlot p.i2e k x) i = _
@@ -183,7 +221,7 @@ theorem nodeA_safe {cfg : Cfg} {N : List Nat} {c k : Nat} {p0 : PImg} (b0 : Boot
     (hsync : cfg.syncSlot = true) (fs : FS) (ps : PS) (id : IdSt) (x : Nat)
     (hB : AllImgs fs (NG N c p0 k)) (hS : SyncedI fs ps.pm) (hpm : OKhdr c p0 k ps.pm)
     (hlen : ps.pm.i2eLen = k) (hidl : id.len = k) (hids : id.start = ps.pm.i2eStart)
-    (hnp : 1 ≤ ps.pm.nextPage) (hk : k < N.length) (hx : x = getSlot N k) (hck : c ≤ k) :
+    (hnp : 1 ≤ ps.pm.nextPage) (hk : k < N.length) (hx : x = getSlot N k) (hck : c ≤ k) (hbm : p0.bm ≤ ps.bm) :
     failOf (nodeA cfg ps id x).1 = none ∧
     SafeAlong (fun fs => AllImgs fs (fun p => PagerOK N c p ∧ Frame p0 p)) fs (ioSteps (nodeA cfg ps id x).1) ∧
     AllImgs (fs.steps (ioSteps (nodeA cfg ps id x).1)) (NG N c p0 (k + 1)) ∧
@@ -193,8 +231,8 @@ theorem nodeA_safe {cfg : Cfg} {N : List Nat} {c k : Nat} {p0 : PImg} (b0 : Boot
     (nodeA cfg ps id x).2.2.start = (nodeA cfg ps id x).2.1.pm.i2eStart ∧
     1 ≤ (nodeA cfg ps id x).2.1.pm.nextPage := by
   have hz : id.start = 0 → ps.pm.i2eLen = 0 := fun h0 => hpm.start (hids ▸ h0)
-  obtain ⟨hb0, ok0, len0, st0, ne0, np0, sy0⟩ := startA_spec (c := c) (k := k) (p0 := p0) ps id hpm hz hids hnp
-  obtain ⟨hb1, sk1, ef1⟩ := ensureA_spec (c := c) (k := k) (p0 := p0) (startA ps id).2.1 (startA ps id).2.2 ok0
+  obtain ⟨hb0, ok0, len0, st0, ne0, np0, sy0⟩ := startA_spec (c := c) (k := k) (p0 := p0) ps id hpm hz hids hnp hbm (by have := b0.bm; omega)
+  obtain ⟨hb1, sk1, ef1⟩ := ensureA_spec (c := c) (k := k) (p0 := p0) (startA ps id).2.1 (startA ps id).2.2 ok0 (Nat.le_trans hbm (startA_bm ps id))
   -- names
   let r0 := startA ps id
   let r1 := ensureA r0.2.1 r0.2.2
@@ -213,19 +251,20 @@ theorem nodeA_safe {cfg : Cfg} {N : List Nat} {c k : Nat} {p0 : PImg} (b0 : Boot
       omega
     · show k + 1 ≤ k + 1
       omega
+  have hbm1 : p0.bm ≤ r1.2.bm := Nat.le_trans hbm (Nat.le_trans (startA_bm ps id) (ensureA_bm _ _))
   have hok2 : OKhdr c p0 (k + 1) pm2 := hok1.sameKey ⟨rfl, rfl, rfl, rfl, Nat.le_refl _⟩
   have hA : HBlock c p0 k (r0.1 ++ r1.1) := hb0.append hb1
   -- the action list
   have hacts : (nodeA cfg ps id x).1 =
       (r0.1 ++ r1.1) ++ ([ioA (.pg (.slot k x) r0.2.2), ioA .ps] ++
-        (([memA .incIdLen, memA (.setPm pm1)] ++ flushA pm1) ++ (([memA (.setPm pm2)] ++ flushA pm2) ++ [memA (.pushExt x)]))) := by
+        (([memA .incIdLen, memA (.setPm pm1)] ++ flushA pm1 r1.2.bm) ++ (([memA (.setPm pm2)] ++ flushA pm2 r1.2.bm) ++ [memA (.pushExt x)]))) := by
     simp [nodeA, hsync, hidl, r0, r1, pm1, pm2]
-  have hF1 : HBlock c p0 (k + 1) ([memA .incIdLen, memA (.setPm pm1)] ++ flushA pm1) :=
-    (⟨rfl, by simp [ioSteps]⟩ : HBlock c p0 (k + 1) [memA .incIdLen, memA (.setPm pm1)]).append (hblock_flush hok1)
-  have hF2 : HBlock c p0 (k + 1) (([memA (.setPm pm2)] ++ flushA pm2) ++ [memA (.pushExt x)]) :=
-    ((HBlock.mem _).append (hblock_flush hok2)).append (HBlock.mem _)
+  have hF1 : HBlock c p0 (k + 1) ([memA .incIdLen, memA (.setPm pm1)] ++ flushA pm1 r1.2.bm) :=
+    (⟨rfl, by simp [ioSteps]⟩ : HBlock c p0 (k + 1) [memA .incIdLen, memA (.setPm pm1)]).append (hblock_flush hok1 hbm1)
+  have hF2 : HBlock c p0 (k + 1) (([memA (.setPm pm2)] ++ flushA pm2 r1.2.bm) ++ [memA (.pushExt x)]) :=
+    ((HBlock.mem _).append (hblock_flush hok2 hbm1)).append (HBlock.mem _)
   have hsteps : ioSteps (nodeA cfg ps id x).1 =
-      ioSteps (r0.1 ++ r1.1) ++ ([.pg (.slot k x) r0.2.2, .ps] ++ (flushSteps pm1 ++ flushSteps pm2)) := by
+      ioSteps (r0.1 ++ r1.1) ++ ([.pg (.slot k x) r0.2.2, .ps] ++ (flushSteps pm1 r1.2.bm ++ flushSteps pm2 r1.2.bm)) := by
     rw [hacts, ioSteps_append_noFail _ _ hA.nofail]
     simp [ioSteps, flushA, flushSteps]
   -- stage A: harmless steps for class k
@@ -241,16 +280,16 @@ theorem nodeA_safe {cfg : Cfg} {N : List Nat} {c k : Nat} {p0 : PImg} (b0 : Boot
     exact ng_slot_succ (allImgs_pv fsA _ hBA) x hx
   generalize hfsC : (fsA.step (.pg (.slot k x) r0.2.2)).step .ps = fsC at hBC
   -- two flushes for class k+1
-  have sD := harmless_block (N := N) (flushSteps pm1 ++ flushSteps pm2) fsC hBC (by
+  have sD := harmless_block (N := N) (flushSteps pm1 r1.2.bm ++ flushSteps pm2 r1.2.bm) fsC hBC (by
     intro s hs
     rcases List.mem_append.mp hs with h | h
-    · exact (hblock_flush hok1).steps s (by simpa [ioSteps_flushA] using h)
-    · exact (hblock_flush hok2).steps s (by simpa [ioSteps_flushA] using h))
+    · exact (hblock_flush hok1 hbm1).steps s (by simpa [ioSteps_flushA] using h)
+    · exact (hblock_flush hok2 hbm1).steps s (by simpa [ioSteps_flushA] using h))
   have toOK : ∀ kk, kk ≤ N.length → ∀ g : FS, AllImgs g (NG N c p0 kk) → AllImgs g (fun p => PagerOK N c p ∧ Frame p0 p) :=
     fun kk hkk g hg => allImgs_mono g _ _ hg (fun p hp => ⟨hp.pagerOK b0 hkk, hp.frame⟩)
-  have hfinal : fs.steps (ioSteps (nodeA cfg ps id x).1) = fsC.steps (flushSteps pm1 ++ flushSteps pm2) := by
+  have hfinal : fs.steps (ioSteps (nodeA cfg ps id x).1) = fsC.steps (flushSteps pm1 r1.2.bm ++ flushSteps pm2 r1.2.bm) := by
     rw [hsteps, steps_append, hfsA]
-    show (fsA.steps ([Step.pg (.slot k x) r0.2.2, Step.ps] ++ (flushSteps pm1 ++ flushSteps pm2))) = _
+    show (fsA.steps ([Step.pg (.slot k x) r0.2.2, Step.ps] ++ (flushSteps pm1 r1.2.bm ++ flushSteps pm2 r1.2.bm))) = _
     rw [steps_append]
     simp only [FS.steps, List.foldl]
     rw [← hfsC]
@@ -263,14 +302,14 @@ theorem nodeA_safe {cfg : Cfg} {N : List Nat} {c k : Nat} {p0 : PImg} (b0 : Boot
     apply safeAlong_append (safeAlong_mono sA (toOK k (by omega)))
     rw [hfsA]
     show SafeAlong (fun fs => AllImgs fs (fun p => PagerOK N c p ∧ Frame p0 p)) fsA
-      (Step.pg (.slot k x) r0.2.2 :: Step.ps :: (flushSteps pm1 ++ flushSteps pm2))
+      (Step.pg (.slot k x) r0.2.2 :: Step.ps :: (flushSteps pm1 r1.2.bm ++ flushSteps pm2 r1.2.bm))
     refine safeAlong_cons (P := fun fs => AllImgs fs (fun p => PagerOK N c p ∧ Frame p0 p)) (toOK k (by omega) _ hBA) ?_
     refine safeAlong_cons (P := fun fs => AllImgs fs (fun p => PagerOK N c p ∧ Frame p0 p)) (toOK k (by omega) _ hBB) ?_
     rw [hfsC]
     exact safeAlong_mono sD (toOK (k + 1) (by omega))
   · rw [hfinal]; exact safeAlong_last sD
   · rw [hfinal]
-    exact steps_flushed fsC _ pm2 ⟨flushSteps pm1, rfl⟩
+    exact steps_flushed fsC _ pm2 ⟨flushSteps pm1 r1.2.bm, _, rfl⟩
   · simp [nodeA, hidl]
   · show r0.2.2 = pm2.i2eStart
     show r0.2.2 = r1.2.pm.i2eStart
@@ -294,7 +333,7 @@ theorem nodesA_safe {cfg : Cfg} {N : List Nat} {c : Nat} {p0 : PImg} (b0 : Boote
     ∀ (xs : List Nat) (k : Nat) (fs : FS) (ps : PS) (id : IdSt) (rest : List Nat),
       N.drop k = xs ++ rest →
       AllImgs fs (NG N c p0 k) → SyncedI fs ps.pm → OKhdr c p0 k ps.pm →
-      ps.pm.i2eLen = k → id.len = k → id.start = ps.pm.i2eStart → 1 ≤ ps.pm.nextPage → c ≤ k → k ≤ N.length →
+      ps.pm.i2eLen = k → id.len = k → id.start = ps.pm.i2eStart → 1 ≤ ps.pm.nextPage → c ≤ k → k ≤ N.length → p0.bm ≤ ps.bm →
       failOf (nodesA cfg ps id xs).1 = none ∧
       SafeAlong (fun fs => AllImgs fs (fun p => PagerOK N c p ∧ Frame p0 p)) fs (ioSteps (nodesA cfg ps id xs).1) ∧
       AllImgs (fs.steps (ioSteps (nodesA cfg ps id xs).1)) (NG N c p0 (k + xs.length)) ∧
@@ -306,20 +345,20 @@ theorem nodesA_safe {cfg : Cfg} {N : List Nat} {c : Nat} {p0 : PImg} (b0 : Boote
   intro xs
   induction xs with
   | nil =>
-    intro k fs ps id rest _ hB hS hpm hlen hidl hids hnp _ hkN
+    intro k fs ps id rest _ hB hS hpm hlen hidl hids hnp _ hkN _
     refine ⟨rfl, ?_, by simpa [nodesA, ioSteps, FS.steps] using hB, by simpa [nodesA, ioSteps, FS.steps] using hS,
       by simpa [nodesA] using hpm, by simpa [nodesA] using hlen, by simpa [nodesA] using hidl,
       by simpa [nodesA] using hids, by simpa [nodesA] using hnp⟩
     apply safeAlong_nil
     exact allImgs_mono fs _ _ hB (fun p hp => ⟨hp.pagerOK b0 hkN, hp.frame⟩)
   | cons x xs ih =>
-    intro k fs ps id rest hdrop hB hS hpm hlen hidl hids hnp hck hkN
+    intro k fs ps id rest hdrop hB hS hpm hlen hidl hids hnp hck hkN hbm
     obtain ⟨hx, hk, hdrop'⟩ := getSlot_of_drop N k x (xs ++ rest) (by simpa using hdrop)
     obtain ⟨nf, sa, hB1, hS1, ok1, len1, idl1, ids1, np1⟩ :=
-      nodeA_safe b0 hsync fs ps id x hB hS hpm hlen hidl hids hnp hk hx.symm hck
+      nodeA_safe b0 hsync fs ps id x hB hS hpm hlen hidl hids hnp hk hx.symm hck hbm
     obtain ⟨nf2, sa2, hB2, hS2, ok2, len2, idl2, ids2, np2⟩ :=
       ih (k + 1) (fs.steps (ioSteps (nodeA cfg ps id x).1)) (nodeA cfg ps id x).2.1 (nodeA cfg ps id x).2.2 rest
-        hdrop' hB1 hS1.toI ok1 len1 idl1 ids1 np1 (by omega) (by omega)
+        hdrop' hB1 hS1.toI ok1 len1 idl1 ids1 np1 (by omega) (by omega) (Nat.le_trans hbm (nodeA_bm cfg ps id x))
     have hacts : (nodesA cfg ps id (x :: xs)).1 =
         (nodeA cfg ps id x).1 ++ (nodesA cfg (nodeA cfg ps id x).2.1 (nodeA cfg ps id x).2.2 xs).1 := rfl
     have hres : (nodesA cfg ps id (x :: xs)).2 = (nodesA cfg (nodeA cfg ps id x).2.1 (nodeA cfg ps id x).2.2 xs).2 := rfl
@@ -452,15 +491,15 @@ theorem MemFacts.append {a b : List MemUpd} {pm0 pm1 pm2 : Meta} {s0 s1 s2 n1 n2
   inc := by rw [countInc_append, ha.inc, hb.inc]
   push := by rw [pushed_append, ha.push, hb.push]
 
-theorem memFacts_startA {c k : Nat} {p0 : PImg} (ps : PS) (id : IdSt) (hpm : OKhdr c p0 k ps.pm) :
+theorem memFacts_startA {c k : Nat} {p0 : PImg} (ps : PS) (id : IdSt) (hpm : OKhdr c p0 k ps.pm) (hbm : p0.bm ≤ ps.bm) :
     MemFacts (memUpds (startA ps id).1) ps.pm (startA ps id).2.1.pm id.start (startA ps id).2.2 0 [] := by
   unfold startA
   by_cases hs : id.start = 0
   · simp only [hs, if_true]
-    obtain ⟨hba, _, _, _⟩ := allocA_spec (c := c) (k := k) (p0 := p0) ps hpm
+    obtain ⟨hba, _, _⟩ := allocA_spec (c := c) (k := k) (p0 := p0) ps hpm hbm
     obtain ⟨f1, f2, f3, f4⟩ := (onlySetPm_alloc ps).facts
     have hmu : memUpds ((allocA ps).1 ++ [memA (.setPm { (allocA ps).2.1.pm with i2eStart := (allocA ps).2.2 })]
-        ++ flushA { (allocA ps).2.1.pm with i2eStart := (allocA ps).2.2 } ++ [memA (.setIdStart (allocA ps).2.2)]) =
+        ++ flushA { (allocA ps).2.1.pm with i2eStart := (allocA ps).2.2 } (allocA ps).2.1.bm ++ [memA (.setIdStart (allocA ps).2.2)]) =
         memUpds (allocA ps).1 ++ [.setPm { (allocA ps).2.1.pm with i2eStart := (allocA ps).2.2 }, .setIdStart (allocA ps).2.2] := by
       rw [memUpds_append_noFail, memUpds_append_noFail, memUpds_append_noFail]
       · simp [memUpds, flushA]
@@ -481,13 +520,14 @@ theorem memFacts_startA {c k : Nat} {p0 : PImg} (ps : PS) (id : IdSt) (hpm : OKh
     exact ⟨by simp [memUpds], rfl, rfl, rfl, rfl⟩
 
 theorem memFacts_nodeA {cfg : Cfg} {c k : Nat} {p0 : PImg} (ps : PS) (id : IdSt) (x : Nat)
-    (hpm : OKhdr c p0 k ps.pm) (hids : id.start = ps.pm.i2eStart) (hnp : 1 ≤ ps.pm.nextPage) :
+    (hpm : OKhdr c p0 k ps.pm) (hids : id.start = ps.pm.i2eStart) (hnp : 1 ≤ ps.pm.nextPage) (hbm : p0.bm ≤ ps.bm)
+    (h1 : 1 ≤ p0.bm) :
     MemFacts (memUpds (nodeA cfg ps id x).1) ps.pm (nodeA cfg ps id x).2.1.pm id.start
       (nodeA cfg ps id x).2.2.start 1 [x] := by
   have hz : id.start = 0 → ps.pm.i2eLen = 0 := fun h0 => hpm.start (hids ▸ h0)
-  obtain ⟨hb0, ok0, _, _, _, _, _⟩ := startA_spec (c := c) (k := k) (p0 := p0) ps id hpm hz hids hnp
-  obtain ⟨hb1, _, _⟩ := ensureA_spec (c := c) (k := k) (p0 := p0) (startA ps id).2.1 (startA ps id).2.2 ok0
-  have h0 := memFacts_startA (c := c) (k := k) (p0 := p0) ps id hpm
+  obtain ⟨hb0, ok0, _, _, _, _, _⟩ := startA_spec (c := c) (k := k) (p0 := p0) ps id hpm hz hids hnp hbm h1
+  obtain ⟨hb1, _, _⟩ := ensureA_spec (c := c) (k := k) (p0 := p0) (startA ps id).2.1 (startA ps id).2.2 ok0 (Nat.le_trans hbm (startA_bm ps id))
+  have h0 := memFacts_startA (c := c) (k := k) (p0 := p0) ps id hpm hbm
   obtain ⟨f1, f2, f3, f4⟩ := (onlySetPm_ensure (startA ps id).2.1 (startA ps id).2.2).facts
   have h1 : MemFacts (memUpds (ensureA (startA ps id).2.1 (startA ps id).2.2).1) (startA ps id).2.1.pm
       (ensureA (startA ps id).2.1 (startA ps id).2.2).2.pm (startA ps id).2.2 (startA ps id).2.2 0 [] :=
@@ -503,7 +543,7 @@ theorem memFacts_nodeA {cfg : Cfg} {c k : Nat} {p0 : PImg} (ps : PS) (id : IdSt)
     have hA : HBlock c p0 k ((startA ps id).1 ++ (ensureA (startA ps id).2.1 (startA ps id).2.2).1) := hb0.append hb1
     have : (nodeA cfg ps id x).1 = ((startA ps id).1 ++ (ensureA (startA ps id).2.1 (startA ps id).2.2).1) ++
         ([ioA (.pg (.slot id.len x) (startA ps id).2.2)] ++ (if cfg.syncSlot then [ioA .ps] else []) ++
-          [memA .incIdLen, memA (.setPm pm1)] ++ flushA pm1 ++ [memA (.setPm pm2)] ++ flushA pm2 ++ [memA (.pushExt x)]) := by
+          [memA .incIdLen, memA (.setPm pm1)] ++ flushA pm1 (ensureA (startA ps id).2.1 (startA ps id).2.2).2.bm ++ [memA (.setPm pm2)] ++ flushA pm2 (ensureA (startA ps id).2.1 (startA ps id).2.2).2.bm ++ [memA (.pushExt x)]) := by
       simp [nodeA, pm1, pm2]
     rw [this, memUpds_append_noFail _ _ hA.nofail, memUpds_append_noFail _ _ hb0.nofail]
     congr 1
@@ -517,20 +557,20 @@ theorem memFacts_nodesA {cfg : Cfg} {N : List Nat} {c : Nat} {p0 : PImg} (b0 : B
     ∀ (xs : List Nat) (k : Nat) (fs : FS) (ps : PS) (id : IdSt) (rest : List Nat),
       N.drop k = xs ++ rest →
       AllImgs fs (NG N c p0 k) → SyncedI fs ps.pm → OKhdr c p0 k ps.pm →
-      ps.pm.i2eLen = k → id.len = k → id.start = ps.pm.i2eStart → 1 ≤ ps.pm.nextPage → c ≤ k → k ≤ N.length →
+      ps.pm.i2eLen = k → id.len = k → id.start = ps.pm.i2eStart → 1 ≤ ps.pm.nextPage → c ≤ k → k ≤ N.length → p0.bm ≤ ps.bm →
       MemFacts (memUpds (nodesA cfg ps id xs).1) ps.pm (nodesA cfg ps id xs).2.1.pm id.start
         (nodesA cfg ps id xs).2.2.start xs.length xs := by
   intro xs
   induction xs with
-  | nil => intro k fs ps id rest _ _ _ _ _ _ _ _ _ _; exact ⟨by simp [nodesA, memUpds], rfl, rfl, rfl, rfl⟩
+  | nil => intro k fs ps id rest _ _ _ _ _ _ _ _ _ _ _; exact ⟨by simp [nodesA, memUpds], rfl, rfl, rfl, rfl⟩
   | cons x xs ih =>
-    intro k fs ps id rest hdrop hB hS hpm hlen hidl hids hnp hck hkN
+    intro k fs ps id rest hdrop hB hS hpm hlen hidl hids hnp hck hkN hbm
     obtain ⟨hx, hk, hdrop'⟩ := getSlot_of_drop N k x (xs ++ rest) (by simpa using hdrop)
     obtain ⟨nf, _, hB1, hS1, ok1, len1, idl1, ids1, np1⟩ :=
-      nodeA_safe b0 hsync fs ps id x hB hS hpm hlen hidl hids hnp hk hx.symm hck
-    have h1 := memFacts_nodeA (cfg := cfg) (c := c) (k := k) (p0 := p0) ps id x hpm hids hnp
+      nodeA_safe b0 hsync fs ps id x hB hS hpm hlen hidl hids hnp hk hx.symm hck hbm
+    have h1 := memFacts_nodeA (cfg := cfg) (c := c) (k := k) (p0 := p0) ps id x hpm hids hnp hbm (by have := b0.bm; omega)
     have h2 := ih (k + 1) _ (nodeA cfg ps id x).2.1 (nodeA cfg ps id x).2.2 rest hdrop' hB1 hS1.toI ok1 len1 idl1 ids1 np1
-      (by omega) (by omega)
+      (by omega) (by omega) (Nat.le_trans hbm (nodeA_bm cfg ps id x))
     have hacts : (nodesA cfg ps id (x :: xs)).1 =
         (nodeA cfg ps id x).1 ++ (nodesA cfg (nodeA cfg ps id x).2.1 (nodeA cfg ps id x).2.2 xs).1 := rfl
     have hres : (nodesA cfg ps id (x :: xs)).2 = (nodesA cfg (nodeA cfg ps id x).2.1 (nodeA cfg ps id x).2.2 xs).2 := rfl
